@@ -44,6 +44,9 @@ const aliasWord = "plus"
 type table struct {
 	gx.Table
 	Alias   string          // operator the text alias "plus" stands for, "" = no alias configured
+	// Order: sequence of the builder calls that hand the table to the parser (same table in every order):
+	// 0 Op(all).Unary(all); 1 Unary(all).Op(all); 2 Op(first half).Unary(all).Op(second half)
+	Order int
 	isUn    map[string]bool // prefix operators
 	spell   map[string]bool // every spelling the operator detector knows (Bin, Un, "=", "->")
 	prefix  map[string]bool // every non-empty prefix of a spelling (the nodes of the trie)
